@@ -77,6 +77,7 @@ def check(rep: Report, ctx: Ctx) -> None:
     r520(rep, ctx)
     r521(rep, ctx)
     r523(rep, ctx)
+    r524(rep, ctx)
 
 
 # --------------------------------------------------------------------------
@@ -1342,9 +1343,7 @@ def r517(rep: Report, ctx: Ctx) -> None:
     by a ``break`` on that node: the placeholder leaves the graph, its
     successor (if any) is re-attached to the event node, and the event node
     is marked BREAK.  (The general case - the placeholder beneath nested XOR
-    starts - walks a mutable ancestry list and is outside what role
-    expressions describe; only R5.4 "the sink runs before the writer"
-    covers it.)"""
+    starts - is R5.24.)"""
     from .effspec import effects, expect
     rep.rule("R5.17", "a dummy break directly behind an event node becomes a "
              "break on that node", 3)
@@ -1551,3 +1550,128 @@ def r523(rep: Report, ctx: Ctx) -> None:
              "cross two parameters", 1)
     crossed_handoffs(rep, ctx, "R5.23", ("puml_graph.py", "walk_puml_graph/"),
                      100)
+
+
+def push_down(rep: Report, ctx: Ctx, rule: str) -> None:
+    """The general case of the dummy-break sink: the placeholder sits
+    beneath one or more nested XOR starts behind the event that breaks.
+    That event is taken out of the line and a copy of it is put in front of
+    EVERY branch of every XOR on the way down (the branch that held the
+    placeholder gets the copy marked BREAK, the other branches continue
+    behind their copy).  `ANC` is the list that starts as [placeholder] and
+    grows by one DFS predecessor per step."""
+    from .effspec import before, effects, expect
+    import re
+    fi = ctx.func("update_graph_for_dummy_break_event_node")
+    D = "P:dummy_break_event_node"
+    ANC = f"[{D}]"
+    REV = f"list(reversed({ANC}))"
+    PAIR = f"each(zip({REV},({REV}[1:] Add [None])))"
+    abbr = [
+        (f"list(P:graph.in_edges([{D}]))[0][0]", "IN"),
+        (f"(list(P:graph.out_edges([{D}]))[0][1] if list(P:graph.out_edges("
+         f"[{D}])) else None)", "OUT"),
+        (f"{PAIR}[0]", "OP"), (f"{PAIR}[1]", "CHILD"),
+        (f"{ANC}.pop()", "EV"), (f"{ANC}[USub(1)]", "ANC[-1]"), (ANC, "ANC"),
+        ("P:graph.create_event_node(EV.node_type,EV.event_types,"
+         "EV.sub_graph,EV.parent_graph_node)", "COPY"),
+        ("each(P:graph.successors(OP))", "BR"),
+        ("each(P:graph.out_edges([OP]))[1]", "BR"), (D, "DUMMY"),
+        ("P:graph", "G")]
+
+    def ab(x):  # type: ignore[no-untyped-def]
+        if isinstance(x, (tuple, list)):
+            return type(x)(ab(y) for y in x)
+        for a, b in abbr:
+            x = x.replace(a, b)
+        # membership in a literal list does not depend on its order
+        return re.sub(r"\[([A-Za-z_.,]+)\]", lambda m: "[" + ",".join(
+            sorted(m.group(1).split(","))) + "]", x) if ",PUML" in x else x
+    effs = effects(ctx, fi, names={"create_event_node"})
+    for e in effs:
+        e.recv, e.args, e.guards = ab(e.recv), ab(e.args), ab(e.guards)
+    GEN = ("truth", "isinstance(IN,PUMLEventNode)", "0")
+    FOUND = ("truth", "isinstance(ANC[-1],PUMLEventNode)", "1")
+    SANE = [("truth", "isinstance(EV,PUMLEventNode)", "1"),
+            ("truth", "isinstance(OP,PUMLOperatorNode)", "1"),
+            ("cmp", "PUMLOperatorNodes.START_XOR", "Eq", "OP.operator_type",
+             "1")]
+    NOTCHILD = ("cmp", "BR", "Eq", "CHILD", "0")
+    ISD = ("cmp", "BR", "Eq", "DUMMY", "1")
+    NOTD = ("cmp", "BR", "Eq", "DUMMY", "0")
+    HASOUT = ("cmp", "OUT", "Is", "None", "0")
+    for e in effs:      # operand order of == is normalised by sorting
+        e.guards = [("cmp", "BR", "Eq", "DUMMY", g[4]) if g[:4] == (
+            "cmp", "DUMMY", "Eq", "BR") else g for g in e.guards]
+
+    def ex(what: str, **kw) -> Optional[object]:  # type: ignore[no-untyped-def]
+        return expect(rep, rule, fi, effs, what, **kw)
+    ex("the walk climbs one DFS predecessor at a time, starting at the "
+       "placeholder", name="append", recv="ANC",
+       args=("dfs_predecessors(G)[ANC[-1]]",), must=[GEN])
+    ex("an AND / OR start or any END operator on the way is refused (the "
+       "break cannot be drawn there) - the conversion fails rather than "
+       "emit a break in the wrong block", kind="raise", name="", args=(),
+       must=[GEN, ("truth", "isinstance(ANC[-1],PUMLOperatorNode)", "1"),
+             ("cmp", "ANC[-1].operator_type", "In",
+              "[PUMLOperatorNodes.END_AND,PUMLOperatorNodes.END_OR,"
+              "PUMLOperatorNodes.END_XOR,PUMLOperatorNodes.START_AND,"
+              "PUMLOperatorNodes.START_OR]", "1")])
+    ex("the placeholder itself is not one of its ancestors", name="pop",
+       recv="ANC", args=("0",), must=[GEN, FOUND])
+    rm = ex("the breaking event (the first event node reached) leaves the "
+            "line", name="remove_node", recv="G", args=("EV",),
+            must=[GEN, FOUND], may=SANE)
+    ex("what preceded it is connected to what followed it",
+       name="add_puml_edge", recv="G",
+       args=("list(G.in_edges([EV]))[0][0]", "list(G.out_edges([EV]))[0][1]"),
+       must=[GEN, FOUND], may=SANE)
+    # the neighbours must be looked up while the event is still in the graph
+    if rm is not None:
+        looks = [c for c in ast.walk(fi.node) if isinstance(c, ast.Call)
+                 and call_name(c) in ("in_edges", "out_edges") and c.args
+                 and "event_node" in unparse(c.args[0])
+                 and "dummy" not in unparse(c.args[0])]
+        ok = len(looks) >= 2 and all(before(ctx, fi, c, rm.node)  # type: ignore[attr-defined]
+                                     for c in looks)
+        rep.ob(rule, "the neighbours of the breaking event are read before "
+               "it is removed", ok, fi=fi, node=rm.node,  # type: ignore[attr-defined]
+               detail=f"{len(looks)} neighbour lookups, all before "
+                      f"remove_node: {ok}")
+    cp = [e for e in effs if e.kind == "call" and e.name ==
+          "create_event_node"]
+    rep.ob(rule, "every branch gets a copy OF ITS OWN, carrying type, flags, "
+           "loop body and model reference of the breaking event",
+           len(cp) == 1 and cp[0].args == (
+               "EV.node_type", "EV.event_types", "EV.sub_graph",
+               "EV.parent_graph_node") and NOTCHILD in cp[0].guards,
+           fi=fi, node=cp[0].node if cp else fi.node,
+           detail=f"{len(cp)} creation site(s): " + "; ".join(
+               e.show()[:200] for e in cp))
+    ex("the copy hangs beneath the XOR start, on every branch except the "
+       "one that leads further down to the placeholder", name="add_puml_edge",
+       recv="G", args=("OP", "COPY"), must=[GEN, FOUND, NOTCHILD], may=SANE)
+    ex("on the placeholder's branch the placeholder leaves the graph",
+       name="remove_node", recv="G", args=("DUMMY",),
+       must=[GEN, FOUND, NOTCHILD, ISD], may=SANE)
+    ex("... the copy is followed by what followed the placeholder",
+       name="add_puml_edge", recv="G", args=("COPY", "OUT"),
+       must=[GEN, FOUND, NOTCHILD, ISD], may=SANE + [HASOUT])
+    ex("... and the copy is marked BREAK (keeping its own flags)",
+       kind="store", name="", recv="COPY.event_types",
+       args=("(*COPY.event_types,PUMLEvent.BREAK)",),
+       alt_args=[("(*EV.event_types,PUMLEvent.BREAK)",)],
+       must=[GEN, FOUND, NOTCHILD, ISD], may=SANE + [HASOUT])
+    ex("on every other branch the copy is inserted between the XOR start "
+       "and the branch: the old edge goes", name="remove_edge", recv="G",
+       args=("OP", "BR"), must=[GEN, FOUND, NOTCHILD, NOTD], may=SANE)
+    ex("... and the branch continues behind the copy", name="add_puml_edge",
+       recv="G", args=("COPY", "BR"), must=[GEN, FOUND, NOTCHILD, NOTD],
+       may=SANE)
+
+
+def r524(rep: Report, ctx: Ctx) -> None:
+    rep.rule("R5.24", "a dummy break beneath nested XOR starts: the breaking "
+             "event is copied in front of every branch, the placeholder's "
+             "branch gets the BREAK", 12)
+    push_down(rep, ctx, "R5.24")
